@@ -116,6 +116,7 @@ func c18(c *Ctx) {
 	defer c18selectCommitsLast(c)
 	defer c18dsnPathEscaped(c)
 	defer c18passwordComparedExactly(c)
+	defer c18counterWriters(c)
 	P, R := c.P, c.R
 	R.Explain("R18.1", "guarded-by-login (T-DOM, inter-procedural): in internal/session every method call on Session.state (other than the nil-safe getters, derived: methods that begin with a receiver nil test) is dominated by the non-nil edge of a test of s.state in the same function or, failing that, at every static call site of the function up to 4 frames; closures inherit the guard that dominates their creation.")
 	R.Explain("R18.2", "T-WRITERS: Session.state is assigned only in handleLogin, from the result of Backend.GetState on its nil-error edge; State.user only in NewState; StateUserInterfaceImpl.u only in its constructor (a state can only reach the database/store/connector of the user it was created for).")
@@ -870,4 +871,36 @@ func c18passwordComparedExactly(c *Ctx) {
 		R.Check(bad == "", "R18.9", c.name(f)+"|password compared as it is", P.Pos(f.Pos()), "no folding / normalising of the password", "the password is passed through a case-folding or normalising function ("+bad+"): a password that differs only in letter case (or padding) authenticates")
 	}
 	R.Min("R18.9", "Authorize methods of the repository's connectors", n, 1)
+}
+
+// c18counterWriters (R18.10): only a login attempt or the jail timer touches the failure counter.
+func c18counterWriters(c *Ctx) {
+	P, R := c.P, c.R
+	R.Explain("R18.10", "three consecutive failures means three consecutive failures: Backend.loginErrorCount is written (sync/atomic Store / Add / Swap / CompareAndSwap) only inside Backend.getUserID, its closures (the jail timer's callback) and helpers only it calls.  Any other writer - a reset when a user is loaded, on logout, on a new connection - lets a guesser interleave an unrelated event and never reach the count that arms the jail.")
+	cntFld := c.fieldOf("internal/backend", "Backend", "loginErrorCount")
+	n := 0
+	for _, f := range c.productFuncs() {
+		for _, cs := range engine.Calls(f) {
+			sc := cs.Common().StaticCallee()
+			if sc == nil || engine.PkgPathOf(sc) != "sync/atomic" || len(cs.Common().Args) == 0 || !fieldAddrIs(cs.Common().Args[0], cntFld) {
+				continue
+			}
+			if strings.HasPrefix(sc.Name(), "Load") {
+				continue
+			}
+			n++
+			top := topFn(f)
+			ok := c.isAnchor(top, "internal/backend.(*Backend).getUserID") || c.onlyCalledFrom(top, 2, "internal/backend.(*Backend).getUserID")
+			R.Check(ok, "R18.10", c.name(c.ownerFn(f))+"|atomic."+sc.Name()+" loginErrorCount", P.Pos(cs.Pos()), "written by the login path only", "the failed-login counter is written outside Backend.getUserID: the run of consecutive failures can be interrupted without a successful login, so the jail is never armed")
+		}
+		for _, b := range f.Blocks {
+			for _, in := range b.Instrs {
+				if st, ok := in.(*ssa.Store); ok && fieldAddrIs(st.Addr, cntFld) {
+					n++
+					R.Check(false, "R18.10", c.name(c.ownerFn(f))+"|plain store loginErrorCount", P.Pos(st.Pos()), "", "the failed-login counter is written with a plain store")
+				}
+			}
+		}
+	}
+	R.Min("R18.10", "writes of Backend.loginErrorCount", n, 2)
 }
